@@ -325,11 +325,13 @@ func c18Gen(t *rapid.T) c18Case {
 	} else {
 		w := gen.WL(t, gen.WLOpts{List: gen.WordListOpts{Min: 1, Max: 8, Pool: c18Words}, MaxLen: 6, UnknownCap: true})
 		// separators from alphabets that cannot coincide with diagnostic text or numbers
-		switch rapid.IntRange(0, 3).Draw(t, "c18sep") {
+		switch rapid.IntRange(0, 4).Draw(t, "c18sep") {
 		case 0:
 			w.Sep = gen.SepSpec{Kind: "const", Const: rapid.SampledFrom([]string{"", "--", "¡", "—·", "::"}).Draw(t, "c18const")}
 		case 1:
 			w.Sep = gen.SepSpec{Kind: "preset", Preset: rapid.SampledFrom([]string{"SFNone", "SFSymbols"}).Draw(t, "c18preset")}
+		case 2:
+			w.Sep = gen.SepSpec{Kind: "draw", Draw: []string{"QJ", "ZXV", "λΩ", "KWK"}, DrawEnt: 1, VaryEnt: rapid.Bool().Draw(t, "vary_ent")}
 		default:
 			r := gen.CharSpec(t, gen.CharOpts{MaxLen: 3, MaxReq: 1, Small: true, Pool: c18Chars, NoHiBits: true})
 			r.Allow, r.Require, r.Exclude = 0, 0, 0
